@@ -69,7 +69,7 @@ REGISTRY = {
     "C15": dict(_design_prop(OD2.oracle_c15, quick=50), correspondence=[i10_implied.corr_implied, i8_pipeline.corr_pipeline]),
     "C23": _design_prop(OD2.oracle_c23),
     "C24": _design_prop(OD2.oracle_c24),
-    "C25": _design_prop(OD2.oracle_c25),
+    "C25": dict(_design_prop(OD2.oracle_c25), correspondence=[i8_pipeline.corr_pipeline]),
     "C26": dict(_design_prop(OD2.oracle_c26, quick=50), correspondence=[i8_pipeline.corr_pipeline]),
     "C29": _design_prop(OD2.oracle_c29),
     "C01": dict(_design_prop(OD.oracle_c01, quick=50), correspondence=[i7_layout.corr_kinarow, i8_pipeline.corr_pipeline, i10_implied.corr_implied],
